@@ -149,6 +149,83 @@ def check_cmp_laws(c, u, names, m, triples=True):
                             dict(kind='cmp3', x=a, y=b, z=z))
 
 
+# ----------------------------------------------------------------------------------------------------------------- dicts: insertion order
+def dict_order_universe():
+    """name -> value: for every key set (two string keys, three string keys, mixed-type keys) every assignment of values from a small pool
+    ("crossing" values included: {'a':1,'b':2} against {'b':1,'a':2}) in EVERY insertion order, the same inside tuples / lists / dict values,
+    plus a few neighbours (other key sets, shorter / longer dicts, scalars).  A dict is the same value whatever order its keys were inserted
+    in, so cmp must not see the order.  Names ending in '~<perm>' are the non-canonical insertion orders of the dict named before the '~'."""
+    u = {}
+
+    def add_all(tag, keys, pools):
+        for vals in itertools.product(*pools):
+            base = '%s[%s]' % (tag, ','.join(str(v) for v in vals))
+            for perm in itertools.permutations(range(len(keys))):
+                name = base if perm == tuple(range(len(keys))) else base + '~' + ''.join(str(i) for i in perm)
+                u[name] = {keys[i]: vals[i] for i in perm}
+    add_all('d_ab', ['a', 'b'], [(1, 2, 'x'), (1, 2, 'x')])
+    add_all('d_abc', ['a', 'b', 'c'], [(1, 2), (1, 2), (1, 2)])
+    add_all('d_1a', [1, 'a'], [(1, 2), (1, 2)])
+    # the same one level down: in a tuple, in a list, as a dict value, next to another element
+    for inner in ('d_ab[1,2]', 'd_ab[2,1]', 'd_ab[1,2]~10', 'd_ab[2,1]~10'):
+        u['t(%s)' % inner] = (dict(u[inner]),)
+        u['l(0,%s)' % inner] = [0, dict(u[inner])]
+        u['d_k(%s)' % inner] = {'k': dict(u[inner])}
+    for inner, other in (('d_ab[1,2]', 'd_ab[2,1]~10'), ('d_ab[1,2]~10', 'd_ab[2,1]'), ('d_ab[2,1]', 'd_ab[1,2]~10')):
+        u['d_pq(%s,%s)' % (inner, other)] = {'p': dict(u[inner]), 'q': dict(u[other])}
+        u['d_pq(%s,%s)~10' % (inner, other)] = {'q': dict(u[other]), 'p': dict(u[inner])}
+    u.update({'None': None, 'i1': 1, 's_a': 'a', 'd_empty': {}, 'd_a1': {'a': 1}, 'd_b1': {'b': 1}, 'd_ac12': {'a': 1, 'c': 2}, 'd_ac12~10': {'c': 2, 'a': 1},
+              'd_abd': {'a': 1, 'b': 2, 'd': 1}, 't_1_2': (1, 2)})
+    return u
+
+
+def order_class(names):
+    return ':dict-insertion-order' if any('~' in n for n in names) else ''
+
+
+def check_dict_order(c, u=None, names=None):
+    """range / never raises / antisymmetry / transitivity / cmp == 0 for == dicts over dict_order_universe (all pairs, all triples)"""
+    from pyg_base import cmp
+    u = u or dict_order_universe()
+    names = names or list(u)
+    m = {}
+    for a in names:
+        for b in names:
+            call = dict(kind='cmp_order', names=[a, b])
+            try:
+                r = cmp(u[a], u[b])
+            except Exception as e:      # noqa
+                m[(a, b)] = None
+                c.check(False, 'C07:cmp:never-raises' + order_class([a, b]), 'cmp(%r, %r) raised %r' % (u[a], u[b], e), call)
+                continue
+            m[(a, b)] = r
+            c.check(type(r) is not bool and r in (-1, 0, 1), 'C07:cmp:range' + order_class([a, b]), 'cmp(%r, %r) = %r' % (u[a], u[b], r), call)
+    for a in names:
+        for b in names:
+            x, y = m[(a, b)], m[(b, a)]
+            c.case(('cmp_order', a, b), nontrivial=a != b, sample=dict(x=a, y=b, cmp=x) if (a, b) == ('d_ab[1,2]', 'd_ab[2,1]~10') else None)
+            if x is None or y is None:
+                continue
+            call = dict(kind='cmp_order', names=[a, b])
+            c.check(x == -y, 'C07:cmp:antisymmetry' + order_class([a, b]), 'cmp(%r, %r) = %r but cmp(%r, %r) = %r' % (u[a], u[b], x, u[b], u[a], y), call)
+            if u[a] == u[b]:                # ints and strings only in this universe: native == is the equality of values
+                c.check(x == 0, 'C07:cmp:equal-values-zero' + order_class([a, b]), 'cmp(%r, %r) = %r for equal values' % (u[a], u[b], x), call)
+    for a in names:
+        for b in names:
+            ab = m[(a, b)]
+            if ab is None or ab > 0:
+                continue
+            for z in names:
+                bz, az = m[(b, z)], m[(a, z)]
+                if bz is None or az is None or bz > 0:
+                    continue
+                ok = az <= 0 and (az < 0 or (ab == 0 and bz == 0))
+                if not ok:
+                    c.check(ok, 'C07:cmp:transitivity' + order_class([a, b, z]), 'cmp(%r,%r)=%d, cmp(%r,%r)=%d but cmp(%r,%r)=%d' % (u[a], u[b], ab, u[b], u[z], bz, u[a], u[z], az),
+                            dict(kind='cmp_order', names=[a, b, z]))
+    return m
+
+
 # ----------------------------------------------------------------------------------------------------------------- sort
 def check_sort(c, vals, m, idx, names, xs_idx, kind):
     """vals: list of objects (the element universe); m: matrix over indices; xs_idx: tuple of indices"""
@@ -378,15 +455,19 @@ def run(tier, seed):
                   rule='cmp laws: all %d^2 pairs and %d^3 triples of a fixed universe (None, bools, ints, floats, three NaN objects of different identity, +-inf, '
                        'strings, datetimes/date, numpy int/float/bool/datetime64 scalars, empty tuple/list and two distinct empty dicts, nested tuples/lists/dicts, '
                        'equal copies, a dict with mixed-type keys): range, never raises, antisymmetry, transitivity, int==float, NaN above finite, agreement with the '
-                       'native order inside numbers/strings/datetimes. sort(): all lists of length <= %d over 14 scalars (None, ints, finite floats, two NaN objects, '
+                       'native order inside numbers/strings/datetimes. Dicts and insertion order: all %d^2 pairs and %d^3 triples of a second universe holding, for the key sets '
+                       '{a,b} (values 1,2,x), {a,b,c} (values 1,2) and {1,a} (values 1,2), every assignment of values in every insertion order (so crossing values such as '
+                       '{a:1,b:2} / {b:1,a:2} meet in both orders), the same dicts inside tuples, lists and dict values, and neighbours with other key sets: range, never '
+                       'raises, antisymmetry, transitivity, cmp == 0 whenever the two values are ==. sort(): all lists of length <= %d over 14 scalars (None, ints, finite floats, two NaN objects, '
                        'strings, datetimes)%s, all lists of length <= 3 over the %d 2-tuples of %d scalars, seeded lists of 4-5 2-tuples and 2-4 3-tuples: permutation '
                        '(by identity) and non-decreasing under cmp. dictable.sort: all tables of <= %d rows with a in 5 mixed values (and separately 5 numeric values '
                        'incl. two NaN objects) x b in {0,1} x 8 key choices (columns, lists, functions), seeded tables of 4-5 rows: permutation, ordered, stable, '
                        'idempotent; 8 explicit value orders against a rank oracle. A case is non-trivial when the inputs are not all the same object.'
-                       % (len(names), len(names), 4 if quick else 5, ', length 5 over 6 of them' if quick else '', 25 if quick else 49, 5 if quick else 7, 3 if quick else 4),
+                       % (len(names), len(names), len(dict_order_universe()), len(dict_order_universe()), 4 if quick else 5, ', length 5 over 6 of them' if quick else '', 25 if quick else 49, 5 if quick else 7, 3 if quick else 4),
                   exhaustive=False, scope='universe of %d values; lists <= %d; tables <= %d rows (all) and 5 rows (sampled)' % (len(names), 5, 3 if quick else 4))
     m = cmp_matrix(c, u, names)
     check_cmp_laws(c, u, names, m)
+    check_dict_order(c)
     run_sort(c, u, rng, quick)
     run_dsort(c, u, rng, quick)
     return c.result()
@@ -426,6 +507,8 @@ def replay(call):
         finally:
             for k, v in laws.violations.items():
                 c.violations.setdefault(k, v)
+    elif kind == 'cmp_order':
+        check_dict_order(c, names=list(dict.fromkeys(call['names'])))
     elif kind in ('sort', 'sort_tuples', 'sort_tuples3'):
         names = list(dict.fromkeys(call['xs']))
         vals = [tuple(u[p] for p in n.split('|')) if kind != 'sort' else u[n] for n in names]
